@@ -58,9 +58,31 @@ def _install(log_path: str) -> None:
         if hasattr(models, nm):
             setattr(models, nm, wrap_name(nm, getattr(models, nm)))
 
+    # reach monitor inside the plugin process (functions of the tree under test that were entered)
+    reached = set()
+    try:
+        mon = sys.monitoring
+        tool = mon.COVERAGE_ID
+        mon.use_tool_id(tool, "vf-plugin-reach")
+        import betterproto as _bp
+
+        prefix = os.path.dirname(os.path.dirname(os.path.realpath(_bp.__file__))) + os.sep
+
+        def on_start(code, offset):
+            fn = code.co_filename
+            if fn.startswith(prefix):
+                reached.add(fn[len(prefix):] + ":" + code.co_qualname)
+            return mon.DISABLE
+
+        mon.register_callback(tool, mon.events.PY_START, on_start)
+        mon.set_events(tool, mon.events.PY_START)
+    except Exception:
+        pass
+
     import atexit
 
     def flush():
+        events.append({"ev": "reach", "functions": sorted(reached)})
         try:
             with open(log_path, "a") as fh:
                 for ev in events:
